@@ -25,6 +25,12 @@ def run(tier, seed):
     uc.compare(chk, "C41_str", cases, exp, outs, nontrivial=lambda c: len(c["a"]) + len(c["b"]) >= 2)
     chk.sample({"gen": "C41_str", "case": cases[len(cases) // 2], "expected": exp[len(cases) // 2]})
     chk.cov["string_pairs"] = len(cases)
+    # ---- trailing white space: every word over {v SP TAB VT FF CR LF}
+    recs, res = uc.gen(chk, "Ascii", "C41_trim", {"Mode": "trim", "MaxA": 4 if q else 6, "MaxB": 0}, ["StrLaws"], dedupe=False)
+    cases = [uc.str_case(r) for r in recs]
+    exp = [uc.str_expected(r) for r in recs]
+    uc.compare(chk, "C41_trim", cases, exp, uc.drive(cases), nontrivial=lambda c: len(c["a"]) >= 2)
+    chk.cov["trim_strings"] = len(cases)
     # ---- evutil_sockaddr_cmp: the observed matrices must be a consistent total order (TLC validates the dump)
     addrs, res = uc.gen(chk, "Ascii", "C41_addrs", {"Mode": "addrs", "MaxA": 0, "MaxB": 0}, [])
     case = {"op": "sacmp", "addrs": addrs[0]}
@@ -55,8 +61,8 @@ def run(tier, seed):
                        "The compiled EVUTIL_IS*_/TO*_ tables are dumped for all 256 bytes and compared entry by entry; "
                        "for every pair (a, b) of strings over {a A z Z @ [ ` { 0 SP TAB 0x80 0xFF} the sign of "
                        "evutil_ascii_strcasecmp/strncasecmp, the offset found by evutil_ascii_strcasestr, "
-                       "evutil_rtrim_lws_ and evutil_snprintf(\"%s\") into every buffer size 0..len+2 (exact-size heap "
-                       "blocks) are compared; the evutil_sockaddr_cmp sign matrices over 15 addresses (with and without "
+                       "evutil_rtrim_lws_ (also on every word <= 4/6 over {v SP TAB VT FF CR LF}) and evutil_snprintf(\"%s\") into every buffer size 0..len+2 (exact-size heap "
+                       "blocks) are compared; the evutil_sockaddr_cmp sign matrices over 21 addresses (with and without "
                        "ports) are validated by TLC against TotalOrder (antisymmetric, transitive, zero iff equal). "
                        "non-trivial = at least two characters in the pair.")
     chk.assumptions += [
